@@ -86,6 +86,8 @@ struct Inner {
     /// wakes on a waker none of whose library-held clones is alive any more (bookkeeping used after free)
     dead_waker_uses: u32,
     waker_lib_clones: Vec<i64>,
+    /// threads that asked to let the others run first (harness-level back-off of a retry loop)
+    yielding:     Vec<bool>,
 }
 
 pub struct Sched {
@@ -112,7 +114,7 @@ impl Inner {
     }
     /// may `t` run usefully right now?
     fn eligible(&self, t: usize) -> bool {
-        self.status[t] == Status::Runnable && (!self.stuck(t) || self.fail_epoch_passed(t))
+        self.status[t] == Status::Runnable && !self.yielding[t] && (!self.stuck(t) || self.fail_epoch_passed(t))
     }
     fn eligible_list(&self) -> Vec<usize> {
         (0..self.status.len()).filter(|&t| self.eligible(t)).collect()
@@ -269,6 +271,7 @@ impl Sched {
                 wakes: vec![vec![]; n],
                 dead_waker_uses: 0,
                 waker_lib_clones: vec![],
+                yielding: vec![false; n],
             }),
             cvs: (0..n).map(|_| Condvar::new()).collect(),
             ctl: Condvar::new(),
@@ -337,6 +340,7 @@ impl Sched {
             return;
         }
         g.step += 1;
+        for t in 0..g.yielding.len() { if t != me { g.yielding[t] = false; } }
         if g.step > g.max_steps {
             self.abort_now(&mut g, EndState::Budget);
             drop(g);
@@ -357,6 +361,27 @@ impl Sched {
                     None => { self.abort_now(&mut g, EndState::Stall { stuck: vec![(me, 0)], parked: vec![] }); drop(g); panic::panic_any(AbortToken); },
                 }
             },
+        }
+    }
+
+    /// `me` is in a retry loop and lets the other threads run first. `false`: nobody else can run (retrying is pointless)
+    pub fn backoff(&self, me: usize) -> bool {
+        if std::thread::panicking() { return false; }
+        let mut g = self.m.lock().unwrap();
+        if g.abort.is_some() { drop(g); panic::panic_any(AbortToken); }
+        if g.current != me { return false; }
+        let others = g.eligible_list().into_iter().any(|t| t != me);
+        if !others { return false; }
+        g.step += 1;
+        if g.step > g.max_steps {
+            self.abort_now(&mut g, EndState::Budget);
+            drop(g);
+            panic::panic_any(AbortToken);
+        }
+        g.yielding[me] = true;
+        match g.choose(me) {
+            Some(next) if next != me => { self.switch_and_wait(g, me, next, false); true },
+            _ => { g.yielding[me] = false; false },
         }
     }
 
@@ -519,6 +544,8 @@ impl ThreadCtx {
     pub fn point(&self, tag: &'static str) { verif::yield_point(tag); }
     pub fn tick(&self) -> u64 { self.sched.tick() }
     pub fn park(&self) -> ParkResult { self.sched.park(self.tid) }
+    /// lets the other threads run first; `false` if nobody else can run
+    pub fn backoff(&self) -> bool { self.sched.backoff(self.tid) }
     /// brackets a harness-declared operation: switches away from this thread while inside are counted
     pub fn op<R>(&self, f: impl FnOnce() -> R) -> R {
         self.sched.set_in_op(self.tid, true);
